@@ -298,6 +298,15 @@ def gen_cases(tier, seed):
                 "mss": rng.choice([3, 7, 64, 1460, "rand"]), "faults": faults,
                 "yields": rng.choice([[1, 1], [1, 1], [0, 1], [2, 1], [1, 2]])}
         cases.append({"kind": "single", "plan": plan, "seed": seed * 100003 + c})
+    # a busy low-numbered port must not shadow an untried port that was busy earlier
+    for lat in (0.0005, 0.001, 0.004):
+        for cmd in ("pasv", "epsv"):
+            cases.append({"kind": "single", "seed": seed, "plan": {
+                "n": 2, "latency": lat, "offsets": [0, 0.02, 0.3],
+                "faults": {str(PORTS[0]): [None, errno.EADDRINUSE, errno.EADDRINUSE, errno.EADDRINUSE],
+                           str(PORTS[1]): [errno.EADDRINUSE]},
+                "scripts": [LOGIN + [[cmd], ["sleep", 0.1], ["quit"]], LOGIN + [[cmd], ["quit"]],
+                            LOGIN + [[cmd], ["cmd", "PWD"], ["quit"]]]}})
     # exhaustive cut positions per script
     cut_scripts = ["retr", "epsv2", "two"] if tier == "quick" else ["retr", "epsv2", "two", "hold", "pasv_fincut"]
     for name in cut_scripts:
